@@ -137,7 +137,7 @@ def model_class(c):
 
 
 # ----------------------------------------------------------------------------- the traced child
-def child_main(home, scenario, wfd, rfd, crash_after, torn):
+def child_main(home, scenario, wfd, rfd, crash_after, torn, interrupt=False, stale_tmp=False):
     """runs in the forked child; never returns"""
     import builtins
     import pathlib
@@ -190,6 +190,11 @@ def child_main(home, scenario, wfd, rfd, crash_after, torn):
         state["n"] += 1
         send({"step": label})
         if crash_after is not None and not torn and state["n"] == crash_after:
+            if interrupt:
+                # not a kill: the process is interrupted (Ctrl-C / a failing system call surfaces as an exception) right after
+                # this step; evo's own clean-up code (with-blocks, finally) runs — it must not publish unfinished data
+                state["n"] += 10 ** 6
+                raise KeyboardInterrupt("injected after " + label)
             os._exit(77)
 
     real_open, real_replace = builtins.open, os.replace
@@ -313,6 +318,13 @@ def child_main(home, scenario, wfd, rfd, crash_after, torn):
     os.replace = os.rename = t_replace            # Path.replace / Path.rename look the functions up in os at call time
     os.open, os.fdopen = t_os_open, t_fdopen
     pathlib.Path.mkdir, pathlib.Path.exists = t_mkdir, t_exists
+    if stale_tmp:
+        # left-overs of an earlier run that was killed before its rename and had the SAME process id (containers start every
+        # command as pid 1..n): longer than anything written now; they must be overwritten from the start, not patched
+        os.makedirs(evo_dir, exist_ok=True)
+        for nm_ in (f"settings.json.{pid}.tmp", f"assets_version.{pid}.tmp"):
+            with real_open(os.path.join(evo_dir, nm_), "w") as f_:
+                f_.write("{\n" + "    \"stale\": \"" + "x" * 6000 + "\"\n}\n")
     out = {"exit": 0, "exc": None, "loaded_all_keys": None, "phase": "import"}
     try:
         import evo.tools.settings as st
@@ -366,7 +378,7 @@ def child_main(home, scenario, wfd, rfd, crash_after, torn):
 class Child:
     """a forked traced evo process; gated=True: every file-system step waits for `go()`"""
 
-    def __init__(self, home, scenario, crash_after=None, torn=False, gated=False):
+    def __init__(self, home, scenario, crash_after=None, torn=False, gated=False, interrupt=False, stale_tmp=False):
         preload()
         r1, w1 = os.pipe()                       # child -> parent
         r2, w2 = os.pipe() if gated else (None, None)   # parent -> child
@@ -377,7 +389,7 @@ class Child:
                 os.close(r1)
                 if gated:
                     os.close(w2)
-                child_main(home, scenario, w1, r2, crash_after, torn)
+                child_main(home, scenario, w1, r2, crash_after, torn, interrupt, stale_tmp)
             finally:
                 os._exit(70)
         os.close(w1)
@@ -455,6 +467,10 @@ def gen_cases(ctx):
             yield {"kind": "trace", "scenario": sc, "init": list(init)}
     for init in BAD_INITS:
         yield {"kind": "trace", "scenario": "start", "init": list(init)}
+    # left-over temporary files of a killed earlier run with the same process id (longer than what is written now)
+    for sc in ("start", "cli_set", "reset_subset", "cli_reset_all", "merge"):
+        for init in (INITS[0], INITS[3], INITS[5]):
+            yield {"kind": "trace", "scenario": sc, "init": list(init), "stale_tmp": True}
     _, cur = default_text_and_version()
     for v in VERSION_STRINGS + [cur]:
         for s_ in ("lacking", "wf"):
@@ -566,6 +582,8 @@ def evaluate(ctx, cases):
 def run_trace(case, defaults, version, homes, **kw):
     home = make_home(tuple(case["init"]), defaults, version)
     homes.append(home)
+    if case.get("stale_tmp"):
+        kw = dict(kw, stale_tmp=True)
     ch = Child(home, case["scenario"], **kw).run_to_end()
     return home, ch
 
@@ -599,7 +617,7 @@ def judge(ctx, case, defaults, version, homes):
         if (impl_status, cls["S"], cls["V"]) != (m["status"], m["S"], m["V"]):
             ctx.mismatch(case, "final status / file classes differ", [impl_status, cls["S"], cls["V"]],
                          [m["status"], m["S"], m["V"]])
-        if cls["tmp"] and ch.status == 0:
+        if cls["tmp"] and ch.status == 0 and not case.get("stale_tmp"):     # (planted left-overs that this run had no reason to touch stay)
             ctx.mismatch(case, "temp files left behind by a finished process", cls["tmp"], [])
         damaged = tuple(case["init"]) in BAD_INITS
         if not damaged:
@@ -676,6 +694,18 @@ def judge_crash(ctx, case, defaults, version, homes, m_after_restart, m_at_crash
     ctx.count("branch", "crash:" + ("torn-write" if case["torn"] else "after-step"))
     ctx.count("dist", "crash:" + case["scenario"])
     ctx.record(case, True)
+    if not case["torn"]:
+        # the same point as an *interruption* (exception raised inside the process after step k, evo's with/finally blocks run):
+        # what is on disk afterwards is judged like the kill — the settings file absent or complete, the next start loads
+        icase = dict(case, fault="interrupt")
+        home_i = make_home(tuple(case["init"]), defaults, version)
+        homes.append(home_i)
+        chi = Child(home_i, case["scenario"], crash_after=case["k"], interrupt=True).run_to_end()
+        cls_i = classify(home_i, defaults, version)
+        oracle_safe(ctx, icase, cls_i, f"interrupted (exception) after step {case['k']}")
+        chi2 = Child(home_i, "start").run_to_end()
+        oracle_start(ctx, icase, chi2, f"fresh start after an interruption at step {case['k']}")
+        ctx.count("branch", "crash:interrupted")
 
 
 def judge_interleave(ctx, case, defaults, version, homes):
